@@ -49,6 +49,14 @@ def ndim(x):
 
 def where(c, a, b):
     Assumed.note("jnp.where(c, a, b) selects a where c else b, element-wise with broadcasting")
+    from .autodiff import DN
+
+    if isinstance(a, DN) or isinstance(b, DN):
+        # forward mode through a select: the tangent is selected by the same predicate (JAX's select_n JVP)
+        Assumed.note("JVP of jnp.where(c, a, b) = where(c, da, db): the tangent of the branch not selected is dropped")
+        a, b = DN.lift(a), DN.lift(b)
+        cp = c.p if isinstance(c, DN) else c
+        return DN(where(cp, a.p, b.p), where(cp, a.tan(), b.tan()))
     if _is_tensor(c) or _is_tensor(a) or _is_tensor(b):
         from ..tensor import t_where
 
@@ -350,11 +358,22 @@ def issubdtype(d, kind):
     return d == kind
 
 
+def cholesky(m):
+    """uninterpreted: only congruence is used (cholesky(m) is a function of m)"""
+    Assumed.note("jnp.linalg.cholesky(m) is a function of m (uninterpreted)")
+    if isinstance(m, Sym):
+        f = z3.Function("Cholesky_%s" % m.e.sort(), m.e.sort(), m.e.sort())
+        return Sym(f(m.e))
+    from ..sym import EngineLimit
+
+    raise EngineLimit("cholesky of %r" % type(m))
+
+
 def namespace(**extra):
     ns = StubNS(
         result_type=result_type, issubdtype=issubdtype, floating="floating", integer="integer", inexact="inexact", complexfloating="complexfloating", number="number",
         array=array, asarray=asarray, shape=shape, ndim=ndim, where=where, sum=sum, any=any,
-        minimum=minimum, maximum=maximum, log=log, exp=exp, add=add, ndarray=object, arange=arange, zeros=zeros, ones=ones, mean=mean, repeat=repeat, nan=float('nan'), inf=INF, isfinite=isfinite, isinf=lambda x: ~isfinite(x), cumsum=cumsum, searchsorted=searchsorted, diag=diag, linalg=StubNS(inv=inv, slogdet=slogdet), zeros_like=lambda x: zeros(x.shape) if hasattr(x, 'shape') and x.shape else Sym(z3.RealVal(0)), concatenate=concatenate,
+        minimum=minimum, maximum=maximum, log=log, exp=exp, add=add, ndarray=object, arange=arange, zeros=zeros, ones=ones, mean=mean, repeat=repeat, nan=float('nan'), inf=INF, isfinite=isfinite, isinf=lambda x: ~isfinite(x), cumsum=cumsum, searchsorted=searchsorted, diag=diag, linalg=StubNS(inv=inv, slogdet=slogdet, cholesky=cholesky), zeros_like=lambda x: zeros(x.shape) if hasattr(x, 'shape') and x.shape else Sym(z3.RealVal(0)), concatenate=concatenate,
         float32="float32", int32="int32", bool_="bool", pi=3.141592653589793,
     )
     for k, v in extra.items():
